@@ -85,6 +85,14 @@ SEEDS = {
     "C05h": ("C05", "load_sample_block compares start/end with np.allclose(rtol=1e-9, atol=0)", "bin coordinates >= 1e9 and a later coverage file whose start or end is off by 1..4 bp", "missed", "C05 now places FASTA-less panels at 2.4e8 / 2^31+7 (negative cohorts also at 2^32+11)"),
     "C11h": ("C11", "by_arm measures the centromere gap start-to-start (np.diff of the starts)", "bins of >= 1e5 bases on a chromosome of >= 102 bins", "missed", "C11 now scales the bin sizes by 1, 60 or 250 (low-pass WGS-sized bins)"),
     "C17h": ("C17", "z_prob computes the two-sided tail as 2*(1 - cdf(|z|))", "a bin more than ~8.3 sd from its segment mean (p below 1e-16)", "missed", "C17 now compares the adjusted p-values relatively (1e-7) and draws alphas of 1e-16 and 1e-40"),
+    "C03i": ("C03", "transfer_fields picks the rows of the end-point stretch by index label", "haar on an arm whose surviving bins still hold a >= 100 kb gap (a second wide gap, or an interior null run dropped by skip_low) with > 50 bins on each side: the re-split leaves duplicate row labels", "missed", "C03 now plants a second centromere-sized gap and interior null-coverage runs spanning > 100 kb; 960 quick examples"),
+    "C04i": ("C04", "_width2wing derives the half-window from ceil(n*width)//2", "a bin class of more than 36 usable bins with a correction enabled", "caught", None),
+    "C06i": ("C06", "GenomicArray keeps start/end columns of any integer dtype (unsigned ones are no longer converted to int64)", "start/end arriving as uint32 / uint64 with overlapping rows, or resize_ranges beyond a start", "missed", "C06 and C07 now hand over start/end as int32, uint32, uint64 or float64 columns on half of the cases"),
+    "C07i": ("C07", "into_ranges tests ser.count() == 0 instead of len(ser) == 0", "a query range hit only by rows whose value is NaN, with a non-NaN default or a supplied function", "missed", "C07 now plants missing values in the float column (sparse on a quarter of the cases, the whole column on an eighth); the supplied function counts hits and missing values"),
+    "C08i": ("C08", "write() casts whole-valued float columns to int64", "an extra float column whose values are all whole with one >= 2^63", "caught", None),
+    "C10i": ("C10", "_do_segmentation starts from the caller's array instead of a copy", "an HMM method with the outlier filter off (0), skip_low off and no zero-weight bin: the caller's bins gain a probes column", "missed", "C10's segment step now draws the outlier filter (10 / 3 / off), min_weight and the hmm / hmm-tumor methods"),
+    "C12i": ("C12", "by_shared_chroms single-chromosome shortcut fires when the other table merely contains that chromosome", "an access table listing exactly one chromosome and baits on further contigs", "caught", None),
+    "C14i": ("C14", "do_call stops applying the post-call filters once fewer than two segments are left", "a table of exactly one segment (or one that cn/ci/sem collapse to one row) with cn 1..4 and the ampdel filter", "caught", None),
 }
 
 
